@@ -19,6 +19,7 @@ import CelloProofs.Lemmas.DispSolo
 import CelloProofs.Lemmas.DispLive
 import CelloProofs.Lemmas.DispNew
 import CelloProofs.Lemmas.DispHeap
+import CelloProofs.Lemmas.DispBorrow
 
 namespace Cello.Dispatch
 
@@ -575,6 +576,41 @@ example :
     (Heap.run layoutNow staleHeap cold).2 = [.constructed (.ok ()), .look (.inst (.ok none))] := by
   decide +kernel
 
+/-- **`safe` is needed only until the heap satisfies its invariant again.**  `Heap.safe` speaks at the step that WRITES a name
+    (it fails as soon as some record memoises the address under another name), although a stale answer needs a LOOKUP that
+    meets the stale word.  This theorem covers the histories in between: after ANY prefix — safe or not: a class object
+    renamed while memoised, deleted and replaced — once the heap satisfies the executable invariant `okb` again (the
+    memoising records were reset or re-constructed: decidable, evaluated on the state the prefix itself produces), every
+    later operation of a `safe` rest is answered by `specHeap` of the declarations and names then in force.  What stays outside:
+    a lookup on a heap in which some OTHER `cls` word (one this lookup does not meet) is stale; the code answers it
+    correctly, the statement that covers it needs the invariant without the name clause of the memo words plus a side
+    condition on the looked-up record only (not proved here). -/
+theorem C08_world_history_resumes (h : Heap) (pre rest : List HOp)
+    (hs : (Heap.run layoutNow h pre).1.w.slots = slotsNow)
+    (hmid : (Heap.run layoutNow h pre).1.okb CelloGen.Disp.cacheNum = true)
+    (hsafe : Heap.safe layoutNow (Heap.run layoutNow h pre).1 rest = true) :
+    (Heap.run layoutNow h (pre ++ rest)).2 = (Heap.run layoutNow h pre).2 ++
+      specHeap CelloGen.Disp.maxInstances (Heap.run layoutNow h pre).1.w.theType (Heap.run layoutNow h pre).1.abs rest ∧
+    HeapOK CelloGen.Disp.cacheNum (Heap.run layoutNow h (pre ++ rest)).1 := by
+  have hw := C08_world_history (Heap.run layoutNow h pre).1 hs (heapOK_of_okb hmid) rest hsafe
+  rw [Heap.run_append]
+  exact ⟨by rw [hw.1], hw.2⟩
+
+/-- the history the second audit names — the class object `K` renamed while `T` memoises it, THEN `T` reset, then the lookup:
+    `Heap.safe` rejects it at the rename, `C08_world_history_resumes` covers it (the invariant holds again after the
+    reset), and the lookup answers NULL as the declaration says -/
+example :
+    let pre : List HOp := [.look 1 .inst (.rt 2), .construct 2 "Bar" [], .reset 1]
+    let rest : List HOp := [.look 1 .inst (.rt 2), .look 1 .impl (.rt 2), .look 1 .inst (.lib "Foo")]
+    Heap.safe layoutNow staleHeap (pre ++ rest) = false ∧
+    (Heap.run layoutNow staleHeap (pre.take 2)).1.okb CelloGen.Disp.cacheNum = false ∧
+    (Heap.run layoutNow staleHeap pre).1.okb CelloGen.Disp.cacheNum = true ∧
+    (Heap.run layoutNow staleHeap pre).1.w.slots = slotsNow ∧
+    Heap.safe layoutNow (Heap.run layoutNow staleHeap pre).1 rest = true ∧
+    (Heap.run layoutNow staleHeap (pre ++ rest)).2.drop 3 =
+      [.look (.inst (.ok none)), .look (.bool (.ok false)), .look (.inst (.ok (some ⟨7, [true]⟩)))] := by
+  decide +kernel
+
 /-- Non-vacuity of `C08_world_history`: a `safe` history on the same heap that re-constructs the memoised class object `K`
     under its OLD name (harmless), renames it after a white-box reset of `T` (harmless: no record memoises it), deletes it
     and builds another type object on its address, re-constructs `T` itself with an instance for that new class, looks
@@ -597,6 +633,75 @@ example :
        .constructed (.raised .OutOfMemoryError), .ub] ∧
     (Heap.run layoutNow staleHeap ops).1.okb CelloGen.Disp.cacheNum = true := by
   decide +kernel
+
+/-! ## names are pointers: the strings a run-time type object borrows (known finding KF-C08-borrowed-name) -/
+
+/-- the full statement: every lookup of a history over type objects answers from the declarations as they were GIVEN to
+    `Type_New` — type names and class names as the TEXTS they were when the construction ran (`XHeap.values`) — whatever the
+    caller does to its own strings afterwards (`XOp.scribble`: a write into a buffer that was once passed as `$S(buf)`) -/
+def C08_names_are_texts_statement : Prop :=
+  ∀ (x : XHeap) (xs : List XOp), x.h.w.slots = slotsNow → HeapOK CelloGen.Disp.cacheNum x.h →
+    Heap.safe layoutNow x.h (x.values layoutNow xs) = true →
+    (XHeap.run layoutNow x xs).2 = specHeap CelloGen.Disp.maxInstances x.h.w.theType x.h.abs (x.values layoutNow xs)
+
+/-- witness of the known finding: `Type` alone; the caller's buffer 1 holds "Alpha"; `T` (address 2) is constructed with
+    `$S(buf)` as its name, `K2` (address 3) with the literal "Alpha", `U` (address 1) with one instance whose class object is
+    `T`; a lookup of `K2` on `U`, a white-box reset of `U`; then the caller writes "Beta" into its buffer and the same two
+    lookups (`K2`, `T`) are made again — no function of the library was called on `T`, `K2` or `U` in between -/
+def borrowHeap : XHeap :=
+  XHeap.ofHeap { w := { slots := slotsNow, theType := 0, types := [(0, mkType CelloGen.Disp.cacheNum false [])] }, names := [] }
+
+def borrowOps : List XOp :=
+  [.scribble 1 "Alpha", .construct 2 (.buf 1) [], .construct 3 (.lit "Alpha") [], .construct 1 (.lit "U") [(.rt 2, ⟨7, [true]⟩)],
+   .op (.look 1 .inst (.rt 3)), .op (.reset 1), .scribble 1 "Beta",
+   .op (.look 1 .inst (.rt 3)), .op (.look 1 .inst (.rt 2)), .op (.look 1 .impl (.lib "Beta"))]
+
+/-- **Refuted** (known finding KF-C08-borrowed-name).  `Type_New` stores the `char*` inside the caller's String object as the
+    type's `__Name` and copies the class's `__Name` word into every triple: a run-time type owns neither its name nor the
+    class names of its triples.  On the model that mirrors the code (and on the real library: corpus/kf_c08_borrowed_name.ops)
+    after the caller's `strcpy(buf, "Beta")` the type `U`, which was given an instance for the class named `Alpha`, answers
+    NULL for the class object `K2` named `Alpha` and implements a class named `Beta`. -/
+theorem C08_borrowed_name_refuted : ¬ C08_names_are_texts_statement := by
+  intro hst
+  have hok : HeapOK CelloGen.Disp.cacheNum borrowHeap.h := heapOK_of_okb (by decide +kernel)
+  have := hst borrowHeap borrowOps rfl hok (by decide +kernel)
+  revert this
+  decide +kernel
+
+/-- what the model (= the code) answers on the witness next to what the texts given to `Type_New` declare; `quiet` fails
+    exactly at the second write (the first one hits a buffer nothing points into yet), and the same history without it is
+    `quiet` and answered by the value-level spec -/
+example :
+    let ins : Inst := ⟨7, [true]⟩
+    (XHeap.run layoutNow borrowHeap borrowOps).2 =
+      [.constructed (.ok ()), .constructed (.ok ()), .constructed (.ok ()), .look (.inst (.ok (some ins))), .unit,
+       .look (.inst (.ok none)), .look (.inst (.ok (some ins))), .look (.bool (.ok true))] ∧
+    specHeap CelloGen.Disp.maxInstances 0 borrowHeap.h.abs (borrowHeap.values layoutNow borrowOps) =
+      [.constructed (.ok ()), .constructed (.ok ()), .constructed (.ok ()), .look (.inst (.ok (some ins))), .unit,
+       .look (.inst (.ok (some ins))), .look (.inst (.ok (some ins))), .look (.bool (.ok false))] ∧
+    (XHeap.run layoutNow borrowHeap borrowOps).1.h.nameAt 2 = some "Beta" ∧
+    borrowHeap.quiet layoutNow borrowOps = false ∧ borrowHeap.quiet layoutNow (borrowOps.take 6) = true ∧
+    borrowHeap.quiet layoutNow (borrowOps.take 6 ++ [.scribble 9 "Beta"] ++ borrowOps.drop 7) = true := by
+  decide +kernel
+
+/-- **Proved part: names are texts as long as the caller leaves the borrowed buffers alone.**  For every heap of type objects
+    with the provenance of its name words (`XHeap`: which caller's buffer a `__Name` cell and a triple's name word point
+    into) and every history of `HOp` operations, pointer-level constructions (`Type_New` with `$S(buf)` or a literal as the
+    name and instances given by their class OBJECTS, whose `__Name` word the triple copies) and caller's writes into
+    buffers that is `quiet` — a write hits only a buffer that no `__Name` cell and no triple name word points into (decidable,
+    evaluated on the states of the history itself) — every operation answers what the value-level history `values` (each
+    construction with the texts it saw when it ran) answers in `C08_world_history`: `specHeap`, a function of declarations
+    and names.  Everything in this file that treats names as texts is therefore about the code under exactly this
+    hypothesis. -/
+theorem C08_names_are_texts_partial (x : XHeap) (xs : List XOp) (hs : x.h.w.slots = slotsNow)
+    (hok : HeapOK CelloGen.Disp.cacheNum x.h) (hq : x.quiet layoutNow xs = true)
+    (hsafe : Heap.safe layoutNow x.h (x.values layoutNow xs) = true) :
+    (XHeap.run layoutNow x xs).2 = specHeap CelloGen.Disp.maxInstances x.h.w.theType x.h.abs (x.values layoutNow xs) ∧
+    HeapOK CelloGen.Disp.cacheNum (XHeap.run layoutNow x xs).1.h := by
+  have hr := XHeap.run_quiet layoutNow xs x hq
+  have hw := C08_world_history x.h hs hok (x.values layoutNow xs) hsafe
+  rw [hr.1, hr.2]
+  exact hw
 
 /-! ## concurrency: every interleaving of atomic steps of any number of threads -/
 
